@@ -14,6 +14,7 @@ from __future__ import annotations
 
 import datetime as dt_
 
+from .. import worker
 from .. import core, obs, seeds
 from ..ref import tzref
 
@@ -193,7 +194,8 @@ def run_shard(shard):
             if not (2 <= f[0] <= 9998):
                 continue
             states += 1
-            check_wall(acc, pendulum, z, f, shard["entries"], recv)
+            with worker.guarded(acc, "construction", {"kind": "wall", "z": z, "f": list(f), "fold": 1, "raise": False, "entry": "*"}):
+                check_wall(acc, pendulum, z, f, shard["entries"], recv)
         if not isinstance(z, int) and walls:
             acc.sample({"zone": z, "wall": list(seeds.fields_of_wall(walls[2])), "folds": [0, 1],
                         "raise_on_unknown_times": [False, True], "entries": list(shard["entries"])})
@@ -203,7 +205,9 @@ def run_shard(shard):
 
 def replay_case(case, acc):
     import pendulum
-    check_wall(acc, pendulum, case["z"], tuple(case["f"]), (case["entry"],))
+    entries = ENTRY if case["entry"] == "*" else (case["entry"],)
+    with worker.guarded(acc, "construction", case):
+        check_wall(acc, pendulum, case["z"], tuple(case["f"]), entries)
 
 
 def plan(tier, seed):
